@@ -146,10 +146,13 @@ func (t *terminal) ptyReadOne(gr *GraphemeReader) error {
 
 	case 27: // ESC ^[ Escape Character
 
+		// A read error in the middle of the sequence ends the handler; it must
+		// end the loop as well, like an error between sequences does.
+		var readErr error
 		t.WithLock(func() {
 			if *debugCmd || *debugTodo {
 				var cmdBytes bytes.Buffer
-				cmdReader := &captureReader{r: lockReleasingReader{t: t, r: gr}, buf: &cmdBytes}
+				cmdReader := &captureReader{r: lockReleasingReader{t: t, r: gr, err: &readErr}, buf: &cmdBytes}
 				success := t.handleCommand(cmdReader)
 				cmd := cmdBytes.Bytes()
 
@@ -159,9 +162,12 @@ func (t *terminal) ptyReadOne(gr *GraphemeReader) error {
 					debugPrintf(debugTodo, "TODO: Unhandled command: %#v\n", string(cmd))
 				}
 			} else {
-				_ = t.handleCommand(lockReleasingReader{t: t, r: gr})
+				_ = t.handleCommand(lockReleasingReader{t: t, r: gr, err: &readErr})
 			}
 		})
+		if readErr != nil {
+			return readErr
+		}
 
 	case 127: // DEL  Delete Character (treat as backspace)
 		t.WithLock(func() {
@@ -184,8 +190,9 @@ type escapeReader interface {
 // application that pauses in the middle of a sequence must not block
 // everyone else out of the terminal.
 type lockReleasingReader struct {
-	t *terminal
-	r *GraphemeReader
+	t   *terminal
+	r   *GraphemeReader
+	err *error // receives the error that ended the sequence, if any
 }
 
 func (l lockReleasingReader) ReadByte() (byte, error) {
@@ -194,7 +201,11 @@ func (l lockReleasingReader) ReadByte() (byte, error) {
 	}
 	l.t.Unlock()
 	defer l.t.Lock()
-	return l.r.ReadByte()
+	b, err := l.r.ReadByte()
+	if err != nil && l.err != nil {
+		*l.err = err
+	}
+	return b, err
 }
 
 type captureReader struct {
